@@ -38,6 +38,8 @@ def eval_call(E, node, st):
                     return [Out("ok", s, v)]
                 return [Out("ok", s, V(Kind("seq", v.kind[1]), E.list_seq(s, v)))]
             return E.bind(E.eval(node.args[0], st), ki)
+        if f.id == "values" and E.spec_mode and len(node.args) == 1:
+            return E.bind(E.eval(node.args[0], st), lambda s, v: [Out("ok", s, V(FN, ("values_of", v)))])
         if f.id == "subset" and E.spec_mode:
             # subset(xs, ys): every element of the list / sequence xs occurs in ys (by value, not by position)
             def ksub(s, vs):
@@ -225,6 +227,29 @@ def _quant(E, node, st):
             seq = E.list_seq(s, seqv) if seqv.kind.tag == "list" else seqv.t
             rng = z3.And(i >= 0, i < z3.Length(seq))
             elemv = V(Kind("tuple"), (V(INT, i), E.elem(seqv.kind[1], seq[i])))
+        elif it.kind.tag == "fn" and it.t[0] == "values_of":
+            # all(P(x) for x in values(xs)): the bound variable ranges over the VALUES that occur in the sequence
+            # (no positions: facts of this form survive appends without reasoning about indices)
+            seqv = it.t[1]
+            seq = E.list_seq(s, seqv) if seqv.kind.tag == "list" else seqv.t
+            ek = seqv.kind[1]
+            kv = z3.Const(fresh_name("qv"), sort_of(ek))
+            rng = z3.Contains(seq, z3.Unit(kv))
+            base = s.assume(rng)
+            a = E.assign(base, g.target, E.elem(ek, kv))
+            if len(a) != 1 or a[0].tag != "ok":
+                raise Unsupported("quantifier target")
+            body = gen.elt
+            for cond in g.ifs:
+                body = ast.BoolOp(op=ast.Or(), values=[ast.UnaryOp(op=ast.Not(), operand=cond), body]) if is_all else ast.BoolOp(op=ast.And(), values=[cond, body])
+            E.__dict__.setdefault("quant_axioms", []).append({"n0": len(a[0].st.pc), "items": []})
+            try:
+                b = E.merged_bool(body, a[0].st)
+            finally:
+                E.quant_axioms.pop()
+            if is_all:
+                return [Out("ok", s, vbool(z3.ForAll([kv], z3.Implies(rng, b))))]
+            return [Out("ok", s, vbool(z3.Exists([kv], z3.And(rng, b))))]
         elif it.kind.tag in ("dict", "odict"):
             # all(P(k) for k in d): the bound variable ranges over the keys
             kk = it.kind[1]
